@@ -582,6 +582,122 @@ theorem indexed_puts_in_requested_fold (set : LabeledData ι κ) (k : Nat) (assi
     exact zip_map_fst_snd _
   · simp at hmk
 
+/-! ## G. every fold-construction function -/
+
+/-- picking at a permutation of all positions yields a permutation of the (input, label) pairs -/
+theorem pick_perm (set : LabeledData ι κ) (hw : C03.WF set) (pos : List Nat) (els : List (ι × κ))
+    (hperm : pos.Perm (List.range set.numberOfElements)) (h : pick set pos = .ok els) :
+    els.Perm (C03.pairs set) := by
+  have he := pick_eq set hw pos els h
+  have hpl := C03.pairs_length set hw
+  have h2 : (pos.map (fun i => (C03.pairs set)[i]?)).Perm
+      ((List.range set.numberOfElements).map (fun i => (C03.pairs set)[i]?)) := hperm.map _
+  have h3 : (List.range set.numberOfElements).map (fun i => (C03.pairs set)[i]?) = (C03.pairs set).map some := by
+    rw [← hpl]
+    apply List.ext_getElem?
+    intro j
+    by_cases hj : j < (C03.pairs set).length
+    · simp [hj]
+    · simp [hj]
+  rw [← he, h3] at h2
+  have := h2.filterMap id
+  simpa [List.filterMap_map] using this
+
+/-- **createCVIID**: whatever `random::discrete` draws (any vector of fold numbers below k), the result is that of
+`createCVIndexed` with the drawn vector — a permutation of the original pairs grouped by drawn fold -/
+theorem createCVIID_partition (set : LabeledData ι κ) (hw : C03.WF set) (k : Nat) (drawn : List Nat) (bs : Nat)
+    (hbs : 0 < bs) (hz : optimalBatchSizes 0 bs = some []) (f : CVFolds ι κ)
+    (h : createCVIID set k drawn bs = .ok f) :
+    C03.WF f.dataset ∧ (C03.pairs f.dataset).Perm (C03.pairs set) ∧
+    C03.pairs f.dataset = (List.range k).flatMap (fun p =>
+      ((List.zip (C03.pairs set) drawn).filter (·.2 = p)).map (·.1)) := by
+  simp only [createCVIID, bind_ok, require_ok] at h
+  obtain ⟨_, _, h⟩ := h
+  obtain ⟨h1, h2, h3⟩ := createCVIndexed_partition set hw k drawn bs hbs hz f h
+  exact ⟨h1, h3, h2⟩
+
+/-- **createCVFullyIndexed** with an order vector that is a permutation of the positions: the reorganised
+dataset is well-formed and a permutation of the original pairs (grouped by the requested folds, in the
+requested processing order: `fold_elements_partition`) -/
+theorem createCVFullyIndexed_partition (set : LabeledData ι κ) (hw : C03.WF set) (k : Nat) (order part : List Nat)
+    (bs : Nat) (hbs : 0 < bs) (hz : optimalBatchSizes 0 bs = some [])
+    (hperm : order.Perm (List.range set.numberOfElements)) (f : CVFolds ι κ)
+    (h : createCVFullyIndexed set k order part bs = .ok f) :
+    C03.WF f.dataset ∧ (C03.pairs f.dataset).Perm (C03.pairs set) := by
+  simp only [createCVFullyIndexed, bind_ok, require_ok, Bool.and_eq_true, decide_eq_true_eq] at h
+  obtain ⟨_, ⟨ho, hp⟩, hr⟩ := h
+  obtain ⟨els, hpick, _, hrest⟩ := fold_elements_partition set k _ bs hbs hz f hr
+  have hfst : (List.zip order part).map (·.1) = order := by
+    apply List.map_fst_zip; omega
+  rw [hfst] at hpick
+  have hpp := pick_perm set hw order els hperm hpick
+  exact ⟨hrest.1, hrest.2.1 ▸ (hrest.2.2.trans hpp)⟩
+
+/-- **createCVSameSizeBalanced**: for every admissible dealing order (every class-wise shuffle), the reorganised
+dataset is well-formed and a permutation of the original pairs; dealing position j goes to fold j mod k
+(so fold sizes and per-class counts are balanced: `dealing_fills_folds_exactly`, `dealing_class_balance`) -/
+theorem createCVSameSizeBalanced_partition {ι : Type} (set : LabeledData ι Nat) (hw : C03.WF set) (k : Nat) (seq : List Nat)
+    (bs : Nat) (hbs : 0 < bs) (hz : optimalBatchSizes 0 bs = some []) (f : CVFolds ι Nat) (first second : List Nat)
+    (h : createCVSameSizeBalanced set k seq bs = .ok (f, first, second)) :
+    C03.WF f.dataset ∧ (C03.pairs f.dataset).Perm (C03.pairs set) ∧
+    first = seq ∧ second = (List.range seq.length).map (· % k) := by
+  simp only [createCVSameSizeBalanced, bind_ok, require_ok, ofOpt_ok, pure_ok, Prod.mk.injEq] at h
+  obtain ⟨_, _, labs, hlabs, _, hvalid, _, _, f', hr, rfl, rfl, rfl⟩ := h
+  obtain ⟨els, hpick, _, hrest⟩ := fold_elements_partition set k _ bs hbs hz f' hr
+  have hfst : (List.zip seq ((List.range seq.length).map (· % k))).map (·.1) = seq := by
+    apply List.map_fst_zip; simp
+  rw [hfst] at hpick
+  -- the dealing order is a permutation of all positions
+  have hlabs' := mapM_id_some _ _ hlabs
+  rw [view_elements set hw] at hlabs'
+  have hlen : labs.length = set.numberOfElements := by
+    have := congrArg List.length hlabs'
+    simp only [List.length_map] at this
+    rw [← this, C03.flat_eq_pairs set hw, C03.pairs_length set hw]
+  simp only [validSeq, Bool.and_eq_true, isPermOf, List.length_map] at hvalid
+  have hperm : seq.Perm (List.range set.numberOfElements) := by
+    rw [← hlen]; exact List.isPerm_iff.mp hvalid.1
+  have hpp := pick_perm set hw seq els hperm hpick
+  exact ⟨hrest.1, hrest.2.1 ▸ (hrest.2.2.trans hpp), rfl, rfl⟩
+
+/-- **createCVBatch**: for every shuffle of the batch indices the dataset is untouched and the folds' validation
+batch sets, concatenated, are the drawn permutation — pairwise disjoint and covering all batches -/
+theorem createCVBatch_partition (set : LabeledData ι κ) (k : Nat) (perm : List Nat) (f : CVFolds ι κ)
+    (h : createCVBatch set k perm = .ok f) :
+    f.dataset = set ∧ f.validationFolds.flatten = perm ∧ perm.Perm (List.range set.numberOfBatches) ∧
+    f.validationFolds.flatten.Nodup := by
+  simp only [createCVBatch, bind_ok, require_ok, ofOpt_ok, pure_ok, isPermOf] at h
+  obtain ⟨_, hperm, q, hq, r, hr, rfl⟩ := h
+  have hp : perm.Perm (List.range set.numberOfBatches) := List.isPerm_iff.mp hperm
+  simp only [cdiv] at hq
+  split at hq
+  · simp at hq
+  · rename_i hk
+    simp only [Option.some.injEq] at hq
+    subst hq
+    simp only [csub] at hr
+    split at hr
+    · rename_i hle
+      simp only [Option.some.injEq] at hr
+      subst hr
+      have hsum : ((List.range k).map fun i => set.numberOfBatches / k +
+          (if i < set.numberOfBatches - set.numberOfBatches / k * k then 1 else 0)).sum = perm.length := by
+        have hmod : set.numberOfBatches - set.numberOfBatches / k * k = set.numberOfBatches % k := by
+          have := Nat.div_add_mod set.numberOfBatches k; rw [Nat.mul_comm] at this; omega
+        rw [hmod]
+        have e : ((List.range k).map fun i => set.numberOfBatches / k + (if i < set.numberOfBatches % k then 1 else 0)) =
+            ((List.range k).map fun j => if j < set.numberOfBatches % k then set.numberOfBatches / k + 1 else set.numberOfBatches / k) := by
+          apply List.map_congr_left; intro i _; split <;> rfl
+        rw [e, C03.sum_range_ite, Nat.min_eq_left (Nat.le_of_lt (Nat.mod_lt _ (Nat.pos_of_ne_zero hk)))]
+        have := Nat.div_add_mod set.numberOfBatches k
+        have hl := hp.length_eq
+        simp only [List.length_range] at hl
+        rw [hl, Nat.mul_comm]; omega
+      refine ⟨rfl, splitBySizes_flatten _ _ hsum, hp, ?_⟩
+      rw [splitBySizes_flatten _ _ hsum]
+      exact (List.Perm.nodup_iff hp).mpr List.nodup_range
+    · simp at hr
+
 /-! ## non-vacuity -/
 example : batchPartitioning [3, 5] [] [] 2 = some (5, [0, 2], [2, 1, 2, 2, 1]) := by decide
 example : foldRanges [2, 3] 0 = [[0, 1], [2, 3, 4]] := by decide
